@@ -847,6 +847,9 @@ func (l *LineWrapper) WrapParagraph(config WrapConfig, maxWidth int, paragraph [
 			_, firstRun, hasFirst := runs.Next()
 			_, _, hasSecond := runs.Peek()
 			if hasFirst && !hasSecond {
+				// as for the first run of the lines built by [WrapNextLine]
+				firstRun.trimStartLetterSpacing()
+				firstRun.RecomputeAdvance()
 				if firstRun.Advance.Ceil() <= maxWidth {
 					lines := l.scratch.singleRunParagraph(firstRun)
 					// as for the lines built by [WrapNextLine]
